@@ -1,5 +1,6 @@
 /* C07: qbe.c:emitdata/dataitem for an array initialised by a string literal (element width -DW, literal of -DSNEL elements incl. the
- * terminator, array of -DSARR elements), followed by an int member; contents symbolic.  The printed items are decoded to bytes. */
+ * terminator, array of -DSARR elements), followed by an int member; contents symbolic.
+ * -DOVR=k: a later designator [k] = v (symbolic v) overrides element k of the array, inside or beyond the literal.  The printed items are decoded to bytes. */
 #include "common.h"
 #include <stdarg.h>
 #include "qbe.c"
@@ -50,13 +51,22 @@ int main(void) {
 	struct decl d = {.name = "x", .kind = DECLOBJECT, .linkage = LINKEXTERN, .type = &st};
 	d.u.obj.align = 4; d.u.obj.storage = SDSTATIC;
 	struct value gv = {.kind = VALUE_GLOBAL}; gv.u.name = "x"; d.value = &gv;
-	static unsigned char buf[SNEL * W];
+	unsigned char *buf = malloc(SNEL * W); ASSUME(buf != 0);      /* literals live in allocated memory (expr.c:stringconcat) */
+	unsigned char lit0[SNEL * W];
 	for (unsigned i = 0; i < SNEL * W; i++) buf[i] = sdata[i];
 	for (unsigned i = 0; i < W; i++) buf[(SNEL - 1) * W + i] = 0;             /* literals end with a zero element */
 	struct expr se = {.kind = EXPRSTRING, .type = &lit}; se.u.string.size = SNEL; se.u.string.data = buf;
 	struct expr ie = {.kind = EXPRCONST, .type = &typeuint}; ie.u.constant.u = ival;
 	struct init i2 = {ioff, ioff + 4, &ie, {0, 0}, 0};
+	for (unsigned i = 0; i < SNEL * W; i++) lit0[i] = buf[i];
+#ifdef OVR
+	ND(unsigned, oval);
+	struct expr oe = {.kind = EXPRCONST, .type = el}; oe.u.constant.u = W == 1 ? (unsigned char)oval : W == 2 ? (unsigned short)oval : oval;
+	struct init iov = {OVR * W, OVR * W + W, &oe, {0, 0}, &i2};
+	struct init i1 = {0, SARR * W, &se, {0, 0}, &iov};
+#else
 	struct init i1 = {0, SARR * W, &se, {0, 0}, &i2};
+#endif
 	emitdata(&d, &i1);
 	WITNESS_POINT();
 	CHECK(!bad, "every emitted item is a well-formed data item");
@@ -65,10 +75,13 @@ int main(void) {
 	bool same = true;
 	for (unsigned i = 0; i < OBJMAX; i++) if (i < st.size) {
 		unsigned char want = 0;
-		if (i < SARR * W && i < SNEL * W) want = buf[i];                         /* truncated or zero-extended to the array */
+		if (i < SARR * W && i < SNEL * W) want = lit0[i];                         /* truncated or zero-extended to the array */
 		else if (i >= ioff) want = (unsigned char)(ival >> (8 * (i - ioff)));
+#ifdef OVR
+		if (i >= OVR * W && i < OVR * W + W) want = (unsigned char)(oval >> (8 * (i - OVR * W)));     /* the later designator wins (C11 6.7.9p19) */
+#endif
 		if (img[i] != want) same = false;
 	}
-	CHECK(same, "string initializer is truncated or zero-extended to the array, the following member is at its offset");
+	CHECK(same, "string initializer is truncated or zero-extended to the array, a later designator overrides its element, the following member is at its offset");
 	return 0;
 }
